@@ -44,9 +44,11 @@ def vh(cmd, rows, name, extra=None):
     return common.vh([cmd, "--in", fp] + (extra or []), binname=BIN, timeout=3400, env={"RAYON_NUM_THREADS": "3"})
 
 
-def pick_combos(lines, rnd, per_stratum):
+def pick_combos(lines, rnd, per_stratum, lk=False, owners=("A", "B", "D")):
     strata = {}
     for l in lines:
+        if l["lk"] != lk or l["p0"]["owner"] not in owners or l["p1"]["owner"] not in owners:
+            continue
         strata.setdefault((l["kind0"], l["kind1"], l["cond"]), []).append(l)
     out = []
     for k in sorted(strata, key=str):
@@ -86,6 +88,9 @@ def judge_cond(res, report, selftest=False):
             st["shapes"] += 1
             if x["shape"].get("or_dummy_only"):
                 st["shapes"] -= 1
+            if x.get("lookup_openings", {}).get("lookups") and not selftest:
+                st["shapes"] -= 1
+                st.setdefault("lookup_shapes", {})[x["id"]] = dict(x["lookup_openings"], accepted_cond_true=0, accepted_cond_false=0, rejected=0)
             if x.get("or_dummy") and not selftest:
                 why = (x["or_dummy"].get("panic") or x["or_dummy"].get("err") or "")[:160]
                 st.setdefault("or_dummy_builds", []).append({"inner_cap_height": x["inner_cap_height"], "built": x["or_dummy"]["built"], "why": why})
@@ -121,6 +126,14 @@ def judge_cond(res, report, selftest=False):
                    "the conditional circuit %s although the selected pair is natively %s (other pair valid: %s)" % (
                        "accepts" if x["circuit"] else "rejects", "valid" if valid0 else "invalid", x["native_other"]), payload)
         else:
+            ls = st.get("lookup_shapes", {}).get(x["id"])
+            if ls is not None:
+                if valid0 and x["p0"]["bad"] == 0 and x["p1"]["bad"] == 0:
+                    ls["accepted_cond_true" if x["cond"] else "accepted_cond_false"] += 1
+                elif valid0:
+                    ls["accepted_cond_true" if x["cond"] else "accepted_cond_false"] += 0
+                else:
+                    ls["rejected"] += 1
             st["accept" if valid0 else "reject"] += 1
             st["combos"].add((x["id"], json.dumps([x["p0"], x["p1"], x["cond"]], sort_keys=True)))
         if (x["expect"] == "accept") != valid0 and shape.get(x["id"], {}).get("binding_bits", 0) >= 50:
@@ -271,6 +284,7 @@ def run(chk, tier):
         cans = {n: ex.submit(common.tlc, m, c, 2, 600) for n, (m, c) in {
             "the verifier data is not selected": ("Conditional", "Conditional_canary_vd_not_selected"),
             "one proof element is not selected": ("Conditional", "Conditional_canary_element_not_selected"),
+            "the g*zeta lookup openings are selected from the zeta lookup openings": ("Conditional", "Conditional_canary_select_mixes_lookup_openings"),
             "the verifier-data check compares the digest only": ("Cyclic", "Cyclic_canary_checkvd_digest_only"),
             "the step connects only the digest of the embedded verifier data": ("Cyclic", "Cyclic_canary_step_ties_digest_only"),
             "the inner proof is verified under the data it carries": ("Cyclic", "Cyclic_canary_verify_under_embedded")}.items()}
@@ -309,6 +323,12 @@ def run(chk, tier):
             cond_rows.append({"id": "c%d_%d" % (si, k), "slot": si, "prog": pick(p1)["prog"], "cfg": STD if si == 0 else pick(strong), "inputs": pick(classes),
                               "pad": pick([2, 20, 60]), "combos": pick_combos(combos, rnd, 4 if thorough else 1), "sample": 2,
                               "selftest": 8 if si == 0 else 0, "probe_or_dummy": True})
+    # inner circuits WITH a lookup table: two real proofs (the dummy circuit refuses lookup shapes), every opening vector
+    # incl. lookup_zs / next_lookup_zs non-empty and different between the two proofs
+    lkp = [p for p in p1 if p["prog"]["instrs"][0]["op"] == "lookup"]
+    for k in range(5):
+        cond_rows.append({"id": "lk_%d" % k, "slot": 50, "prog": pick(lkp)["prog"], "cfg": STD, "inputs": ["small:16", "rand", "rand"], "pad": pick([3, 20]),
+                          "combos": pick_combos(combos, rnd, 2 if thorough else 1, lk=True, owners=("A", "B")), "sample": 2})
     simple = [p for p in p1 if p["prog"]["instrs"][0]["op"] in ("add", "mul", "sub", "mul_add", "square")]
     for h in (0, 1, 2, 3):                   # cap height 4 (= the outer configuration's) is shape c0
         for k in range(4):
@@ -365,6 +385,10 @@ def run(chk, tier):
     if not {0, 1, 2, 3, 4} <= caps_built | {int(k.split("-")[-1].split("/")[0]) for k, _, _ in chk.violations if k.startswith("C20/or-dummy/inner-cap-")} or (
             caps_built and sc.get("or_dummy_cases", 0) < 6 * len(caps_built)):
         raise ToolError("vacuity (or_dummy): cap heights built %s, cases %s" % (sorted(caps_built), sc.get("or_dummy_cases")))
+    lks = sc.get("lookup_shapes", {})
+    if not any(v["distinct"] and v["accepted_cond_true"] and v["accepted_cond_false"] and v["rejected"] for v in lks.values()):
+        raise ToolError("vacuity (conditional, lookup inner circuits): %s" % lks)
+    chk.canary("the class of the spec mutant 'select_mixes_lookup_openings' (a valid selected pair of a lookup circuit, both conditions) is part of the replay", True)
     if sc["shapes"] < ncond or sc["accept"] < 8 * sc["shapes"] or sc["reject"] < 8 * sc["shapes"] or sc["outer"] < sc["shapes"]:
         raise ToolError("vacuity (conditional): %s" % chk.extra["conditional"])
     if sd["dummy_circuits"] < ndummy // 3 or sd["proofs"] < sd["dummy_circuits"] * 3:
